@@ -23,7 +23,7 @@ deriving DecidableEq, Repr
 
 def step (earlyRetx earlyLimit : Nat) (s : Seg) : Ev → Seg
   | .first => { s with txCount := s.txCount + 1 }
-  | .dupAck => { s with ackCount := s.ackCount + 1 }
+  | .dupAck => { s with ackCount := (s.ackCount + 1) % 256 }   -- `ackCount` is a `byte`: it wraps
   | .scan timedOut =>
     if s.ackCount ≥ earlyRetx ∧ s.txCount ≤ earlyLimit then
       { s with ackCount := 0, txCount := s.txCount + 1, early := s.early + 1 }
